@@ -85,7 +85,8 @@ def main():
                     else:
                         qx2 = -x * 0.5
                     y2 = Fn.linear(qx2, qw, b)
-                r["result_stable"] = bool(torch.equal(y, snap))
+                # bitwise (NaN-safe): the values held by y must be the ones it held when it was returned
+                r["result_stable"] = bool(torch.equal(y.contiguous().view(torch.uint8), snap.contiguous().view(torch.uint8)))
                 del y2
                 r.update(stats(y, ref, absref))
                 r["K"] = inf
